@@ -25,7 +25,7 @@ pub const DEF: PropDef = PropDef {
         "a report is attributed to the add_to_window / add_probabilistic_to_window call during which the consumer received it; its triggering timestamp is that call's timestamp",
         "the completeness clause is demanded only for intervals that hold at least one item (DESIGN.md C09: an empty interval that never opened need not be reported) and only for strategy [OnWindowClose]",
         "report strategies without OnWindowClose report still-open windows by design and are outside the statement (c <= trigger time cannot hold); Tick::TupleDriven/BatchDriven never report and are not enumerated; flush() reports a merged content by design and is not called",
-        "[OnWindowClose,OnContentChange]: Report::report mutates last_change while filtering a HashMap iteration, so WHICH closed window reports depends on the hash order and identical re-executions differ; only the three safety clauses are judged (they must hold under every order), and the determinism rule for this strategy is 'a failure is a verdict only if one of 8 re-executions fails too'",
+        "[OnWindowClose,OnContentChange]: Report::report mutates last_change while filtering a HashMap iteration, so WHICH closed window reports depends on the hash order and identical re-executions differ; only the three safety clauses are judged (they must hold under every order); because run-to-run variation is a trait of this strategy, a failing observation is recorded as a verdict without demanding that it recurs (how many recur in 4 re-executions is counted), and a replay executes the case up to 512 times until a failing observation shows",
         "a window content is a SET of items: an item value that arrives twice inside one interval is one element of the report (labels family); nothing is demanded about ContentContainer's per-item timestamps, is_deterministic() or probabilistic_occurrences()",
         "reference model: harness/src/reference/window.rs (check and its generalisation check_values, both self-tested on hand-computed cases; on the base family both are evaluated and must agree, otherwise exit 2)",
     ],
@@ -267,15 +267,24 @@ fn fails(case: &Case, strat: Strat, obs: &Observation) -> bool {
 }
 
 /// run one case through the given (strategy, path) combinations; returns the first [OnWindowClose] observation
-fn run_case(case: &Case, out: &mut ShardOut, combos: &[(Strat, Path)]) -> Option<(Vec<Firing>, refw::Stats)> {
+/// `order_tries`: how many executions an order-dependent strategy gets to show a failing observation (1 in the
+/// enumeration, many in replay: whether a recorded failure shows again depends on the hash order)
+fn run_case(case: &Case, out: &mut ShardOut, combos: &[(Strat, Path)], order_tries: usize) -> Option<(Vec<Firing>, refw::Stats)> {
     let mut main: Option<(Vec<Firing>, refw::Stats)> = None;
     let mut first_list: Option<(Strat, Vec<Firing>)> = None;
     for &(strat, path) in combos {
         if first_list.as_ref().map_or(false, |f| f.0 != strat) {
             first_list = None;
         }
-        let obs = observe(case, strat, path);
+        let mut obs = observe(case, strat, path);
         out.count("window_runs", 1);
+        if strat.order_dependent() {
+            let mut n = 1;
+            while n < order_tries && !fails(case, strat, &obs) {
+                obs = observe(case, strat, path);
+                n += 1;
+            }
+        }
         let verdicts = judge(case, strat, &obs);
         // the two reference formulations must agree wherever both apply (unique items, small timestamps)
         if case.family == "base" {
@@ -318,11 +327,13 @@ fn run_case(case: &Case, out: &mut ShardOut, combos: &[(Strat, Path)]) -> Option
                     if !reexecuted {
                         reexecuted = true;
                         if strat.order_dependent() {
-                            // the observation legitimately varies with the hash order; the safety clauses may not
-                            if !(0..8).any(|_| fails(case, strat, &observe(case, strat, path))) {
-                                out.machinery_errors.push(format!("failure of {} did not recur in 8 re-executions: {}", case_json(case, strat, path), detail));
-                                break;
-                            }
+                            // run-to-run variation is a documented trait of this strategy (the hash order decides
+                            // which closed window reports), so a failing observation - an execution of the real code
+                            // that broke a clause which must hold under EVERY order - is a verdict even if it does
+                            // not recur; how often it recurs is recorded
+                            let again = (0..4).filter(|_| fails(case, strat, &observe(case, strat, path))).count() as u64;
+                            out.count("onchange_failures", 1);
+                            out.count(if again > 0 { "onchange_failures_recurring_in_4_reexecutions" } else { "onchange_failures_not_recurring_in_4_reexecutions" }, 1);
                         } else {
                             let again = observe(case, strat, path);
                             if again != obs {
@@ -496,7 +507,7 @@ fn run(ctx: &Ctx) -> ShardOut {
                         }
                         let before = out.failures_total;
                         let case = Case::plain("base", &seq, width, slide);
-                        let main = run_case(&case, &mut out, &combos);
+                        let main = run_case(&case, &mut out, &combos, 1);
                         out.evaluations += 1;
                         out.count("onchange_runs", 2);
                         let want = idx % 9973 == 1 || (out.samples.is_empty() && main.as_ref().map_or(false, |m| m.1.nonempty_firings >= 2));
@@ -553,7 +564,7 @@ fn run(ctx: &Ctx) -> ShardOut {
                         let mut case = Case::plain("kinds", &seq, width, slide);
                         case.prob = (0..len).map(|i| mask & (1 << i) != 0).collect();
                         let before = out.failures_total;
-                        let main = run_case(&case, &mut out, &kinds_combos);
+                        let main = run_case(&case, &mut out, &kinds_combos, 1);
                         out.evaluations += 1;
                         if case.prob.iter().any(|p| !*p) {
                             out.count("kinds_cases_mixing_both_kinds", 1);
@@ -597,7 +608,7 @@ fn run(ctx: &Ctx) -> ShardOut {
                                     let mut case = Case::plain("labels", &seq, width, slide);
                                     case.values = values.clone();
                                     let before = out.failures_total;
-                                    let main = run_case(&case, &mut out, &labels_combos);
+                                    let main = run_case(&case, &mut out, &labels_combos, 1);
                                     out.evaluations += 1;
                                     let want = idx % 19997 == 5;
                                     account(&case, main, &mut out, before, want);
@@ -645,7 +656,7 @@ fn run(ctx: &Ctx) -> ShardOut {
                                 let mut case = Case::plain("offset", &ts, width, slide);
                                 case.prob = vec![all_prob; len];
                                 let before = out.failures_total;
-                                let main = run_case(&case, &mut out, if all_prob { &prob_combos } else { &det_combos });
+                                let main = run_case(&case, &mut out, if all_prob { &prob_combos } else { &det_combos }, 1);
                                 out.evaluations += 1;
                                 out.count(&format!("offset_cases_base_{}", bi), 1);
                                 if base % slide != 0 {
@@ -704,7 +715,7 @@ fn replay(_ctx: &Ctx, case: &Value) -> ShardOut {
         (Some(s), Some(p)) => vec![(s, p)],
         _ => base_combos(),
     };
-    run_case(&c, &mut out, &combos);
+    run_case(&c, &mut out, &combos, 512);
     out.evaluations = 1;
     out
 }
